@@ -7,12 +7,16 @@ M: TLC explores the complete (finite, cyclic) state graph of spec/SpanGuard.tla:
    (forms plain / result / guard).  Level B transcribes the (state, data, completion)
    take() triple; the invariants AtMostOnce, ExactlyOnceIffEnabledStarted,
    EnabledIsFilterVerdict, ReturnValueTruthful, ExtentIsStartToEnd, CarriesLatestData,
-   PanicAddsErrAndLevel, RefinesStatement tie it to level A (the statement).
+   PanicAddsErrAndLevel, RefinesStatement, SetupBracketsSpan tie it to level A (the statement).
    The same spec with F2Bug = TRUE (with_completion as found) must violate
    EnabledIsFilterVerdict: sensitivity of the invariants, run every time.
 G: every transition of the graph is printed (operations + predicted is_enabled / return
    value / completion calls) and replayed on real SpanGuards (type-erased props and
-   completion) and on functions carrying the real attribute macros (sync + async).
+   completion) and on functions carrying the real attribute macros (sync + async; forms
+   plain / setup: / ok_lvl+err_lvl / err: mapper / guard: / new_span!).  A second, bounded
+   configuration (SpanGuard_typed.cfg, history in the state) enumerates ALL sequences of <= 3
+   non-terminal operations + terminal and runs each on the erased guard, on statically typed
+   guards and on the guard new_span! returns.
    thorough: plus TLC -simulate behaviours of depth 40 (long sequences).
 """
 import json
@@ -24,10 +28,16 @@ ACTIONS = ["New", "Start", "WithMdl", "WithName", "MapWith", "WithCompletion", "
            "CompleteWith", "CompleteWithResult", "Drop", "DropWhilePanicking"]
 
 
-def _replay(ctx, bindir, cases, label):
+def _replay(ctx, bindir, cases, label, mode="graph"):
     rep_path = os.path.join(ctx.out, "report-%s.json" % label)
-    ctx.run_harness(os.path.join(bindir, "c05_spanguard"), [cases, rep_path])
+    ctx.run_harness(os.path.join(bindir, "c05_spanguard"), [cases, rep_path, mode])
     rep = json.load(open(rep_path))
+    if rep["extra"].get("drift_total"):
+        # level B (what the code does where the statement is silent) no longer describes it
+        vlib.log("MODEL-DRIFT C05: %d executions differ from level B in lvl/err of an explicit "
+                 "completion made while unwinding" % rep["extra"]["drift_total"])
+        ctx.cov["drift"] += [{"what": d["what"], "ops": d["case"]["ops"]}
+                             for d in rep["extra"]["drift"][:3]]
     ctx.cov["traces_validated_against_impl"] += rep["checks"]
     ex = ctx.cov.setdefault("impl_executions", {})
     for k, v in rep["extra"].get("executions", {}).items():
@@ -57,6 +67,8 @@ def run(ctx):
         with open(cases, "w") as f:
             f.write(json.dumps(rc["case"]) + "\n")
         _replay(ctx, bindir, cases, "replay")
+        if rc["case"]["form"] == "none" and len(rc["case"]["ops"]) <= 5 and rc["case"]["done"]:
+            _replay(ctx, bindir, cases, "replay-typed", "typed")
         return
 
     # sensitivity of the invariants: the unrepaired design must be rejected
@@ -78,8 +90,7 @@ def run(ctx):
     n = vlib.extract_printed(r.out_path, "REPLAY", cases)
     if n == 0:
         raise vlib.ToolError("TLC printed no cases")
-    if not ctx.quick:
-        os.remove(r.out_path)       # > 100 MB
+    os.remove(r.out_path)       # 80 MB (quick) .. 500 MB (thorough)
     rep = _replay(ctx, bindir, cases, "graph")
     if rep["cases"] != n:
         raise vlib.ToolError("harness decided %d of %d cases" % (rep["cases"], n))
@@ -92,6 +103,22 @@ def run(ctx):
                 done += 1
             if done >= 4:
                 break
+
+    # statically typed chains: all sequences of <= 3 operations + every terminal, on the
+    # erased guard, on concrete types and on the guard new_span! returns
+    rt = ctx.tlc("MCSpanGuard", "SpanGuard_typed.cfg", workers=4, timeout=900, xmx="4g")
+    if rt.violated:
+        ctx.spec_violation(rt, "SpanGuard.tla: %s violated (typed configuration)" % rt.violated)
+        return
+    typed = os.path.join(ctx.out, "cases-typed.ndjson")
+    nt = vlib.extract_printed(rt.out_path, "REPLAY", typed)
+    os.remove(rt.out_path)
+    if nt == 0:
+        raise vlib.ToolError("TLC printed no typed cases")
+    rept = _replay(ctx, bindir, typed, "typed", "typed")
+    ex = rept["extra"].get("executions", {})
+    if not ex.get("none/typed") or not ex.get("none/typed-new_span!"):
+        raise vlib.ToolError("typed chains not executed: %s" % ex)
 
     if not ctx.quick:
         # long sequences: random behaviours of depth 40
@@ -111,11 +138,18 @@ def run(ctx):
     ctx.assumptions += [
         "std::thread::panicking() is what 'panic unwinding' means (DropWhilePanicking = drop "
         "during catch_unwind'ed unwinding)",
-        "the type-erased guard (Box<dyn ErasedProps>, boxed dyn ErasedCompletion) behaves like "
-        "the statically typed chains: SpanGuard's methods are generic and do not inspect P / F",
-        "macro forms are a fixed set of fixtures: #[span]/#[info_span] x {no result levels, "
-        "ok_lvl+err_lvl, guard:} x {sync fn, async fn} with exits return / early return / ? / "
-        "panic; attribute on blocks, `err:` mapper and `setup:` are not exercised",
+        "the type-erased guard (Box<dyn ErasedProps>, boxed dyn ErasedCompletion) stands for the "
+        "statically typed ones: checked for every sequence of <= 3 operations + terminal "
+        "(SpanGuard_typed.cfg: erased, concrete types and new_span! guard against one prediction); "
+        "longer sequences run on the erased guard only",
+        "macro forms are a fixed set of fixtures: #[span]/#[info_span] x {plain, setup:, "
+        "ok_lvl+err_lvl, +err: mapper, guard:} x {sync fn, async fn} with exits return / early "
+        "return / ? / panic, and new_span!/new_info_span! with manual guard handling in "
+        "Frame::call and Frame::in_future; the attribute on blocks / async blocks needs unstable "
+        "features (E0658 stmt_expr_attributes / proc_macro_hygiene on rustc 1.95) and is not run",
+        "explicit complete / complete_with made while the thread is unwinding: only the number of "
+        "completions, return value, data, extent and ids are part of the verdict; lvl / err are "
+        "level B's (the code's) and a difference is reported as MODEL-DRIFT",
         "result completions (ok/err) in direct guard use are built through the hidden "
         "emit::__private hooks the macro calls",
         "clock readings compared relationally (reading handed out during Start .. reading "
